@@ -1,3 +1,4 @@
+import MdsVerif.Gen.Slice
 /-!
 # Executable model of `slice/lis.go` (core Lean only)
 
@@ -11,6 +12,10 @@ State as in the Go code: `tails : []int` (indices into `vs`), `prev : []int`
 (indices, `-1` = none).  Every index expression is an `Option` read (`none` =
 Go's index-out-of-range panic); that it never happens is part of the theorems.
 `cmp : α → α → Int` is Go's three-way comparison.
+
+The fast-path tests, the choice of binary search, the `replaceIdx == 0` tests and
+`bisectRight`'s comparison are definitions of `MdsVerif.Gen.Slice`, regenerated from
+slice/lis.go on every run (`extract/slice.go`); `Props.C12.C12_current` pins them.
 -/
 namespace MdsVerif.Model.Lis
 
@@ -40,7 +45,7 @@ def bisectRight {β γ : Type} (vs : List β) (target : γ) (cmp : β → γ →
   bsearchLoop (fun mid => do
     let x ← vs[mid]?
     let c ← cmp x target
-    pure (decide (c > 0))) (vs.length + 1) 0 vs.length
+    pure (Gen.Slice.bisectGoLeft c)) (vs.length + 1) 0 vs.length
 
 /-- `slices.BinarySearchFunc(x, target, cmp)` (index result only):
 `if cmp(x[h], target) < 0 { i = h + 1 } else { j = h }` -/
@@ -62,15 +67,20 @@ def lisStep (strict : Bool) (cmp : α → α → Int) (vs : List α) (s : St) (i
   let vi ← vs[i]?
   let vb ← vs[idxOfBestTail]?
   -- if cmp(vs[i], vs[idxOfBestTail]) >= 0   (LIS: > 0)
-  if (if strict then cmp vi vb > 0 else cmp vi vb ≥ 0) then
+  if (if strict then Gen.Slice.lisFast (cmp vi vb) else Gen.Slice.lndsFast (cmp vi vb)) then
     let prev ← setAt s.prev i (idxOfBestTail : Int)
     pure { tails := s.tails ++ [i], prev := prev }
   else
     let cmpIdx : Nat → α → Option Int := fun idx target => (vs[idx]?).map (cmp · target)
     let replaceIdx ←
-      if strict then binarySearchFunc s.tails.dropLast vi cmpIdx
-      else bisectRight s.tails.dropLast vi cmpIdx
-    let p : Int ← if replaceIdx = 0 then some (-1) else (s.tails[replaceIdx - 1]?).map Int.ofNat
+      -- LNDS: `bisectRight(tails[:len(tails)-1], vs[i], …)`, LIS: `slices.BinarySearchFunc(…)`
+      if (if strict then Gen.Slice.lisUsesBisectRight else Gen.Slice.lndsUsesBisectRight) then
+        bisectRight s.tails.dropLast vi cmpIdx
+      else binarySearchFunc s.tails.dropLast vi cmpIdx
+    -- `if replaceIdx == 0 { prev[i] = -1 } else { prev[i] = tails[replaceIdx-1] }`
+    let p : Int ←
+      if (if strict then Gen.Slice.lisFirst replaceIdx else Gen.Slice.lndsFirst replaceIdx) then some (-1)
+      else (s.tails[replaceIdx - 1]?).map Int.ofNat
     let prev ← setAt s.prev i p
     let tails ← setAt s.tails replaceIdx i
     pure { tails := tails, prev := prev }
